@@ -677,6 +677,10 @@ pub fn replay(prop: &str, path: &str) -> i32 {
         return 2;
     };
     let r = doc.get("replay").unwrap_or(&doc);
+    if r.get("engine").and_then(J::as_str) != Some("hist") {
+        // permutation scenarios (C14), sanitizer add-on reports: regenerate from (seed, tier)
+        return crate::report::generic_replay(prop, path);
+    }
     let seed = r.get("seed").and_then(J::as_i64).unwrap_or(1) as u64;
     let case = r.get("case").and_then(J::as_i64).unwrap_or(0) as u64;
     let len = r.get("len").and_then(J::as_i64).unwrap_or(50) as usize;
